@@ -187,7 +187,12 @@ def worker_main(argv):
             c.rounding = getattr(_decimal, spec['decimal_context']['rounding'])
         if spec['decimal_context'].get('trap_inexact'):
             c.traps[_decimal.Inexact] = True
+    if isinstance(spec, dict) and spec.get('int_max_str_digits') is not None:
+        # ... or with the interpreter's limit on int <-> text conversion lifted (0) by the host
+        sys.set_int_max_str_digits(int(spec['int_max_str_digits']))
     rec = Rec(check_id, spec)
+    if isinstance(spec, dict) and spec.get('ambient'):
+        rec.cov('shards_rerun_under_other_ambient_state', spec['ambient'])
     reach = None
     try:
         from . import probe
@@ -196,11 +201,20 @@ def worker_main(argv):
         from . import contracts
         contracts.install(rec)
         check = load_check(check_id)
+        if isinstance(spec, dict) and spec.get('warnings'):
+            # ... or with warnings turned into exceptions (python -W error), set once everything is imported: code that runs clean
+            # by default must not start failing because it warns
+            import warnings as _warnings
+            _warnings.simplefilter(spec['warnings'])
         check.run(spec, rec)
         contracts.harvest(rec)
     except BaseException:
         rec.inconcl('harness crashed in shard %s: %s' % (show(spec, 120), traceback.format_exc()[-1500:]))
     d = rec.dump()
+    if isinstance(spec, dict) and spec.get('ambient'):
+        # a re-run is extra: its counters are kept apart, so that the totals a check's judge() looks at (sweeps that must be complete,
+        # exactly once) are those of the planned shards
+        d['counts'] = {'under_other_ambient_state.' + k: v for k, v in d['counts'].items()}
     try:
         d['reach'] = reach.stop() if reach is not None else {}
     except Exception:
@@ -284,7 +298,7 @@ def run_shards(check, specs, tier, jobs, inline=False):
                     json.dump(spec, f)
                 e = dict(os.environ)
                 e['PYTHONDONTWRITEBYTECODE'] = '1'
-                e['PYTHONHASHSEED'] = '0'
+                e['PYTHONHASHSEED'] = str(spec.get('hashseed', 0))      # ambient state a shard may ask for, like TZ and the decimal context
                 e['PYTHONPATH'] = env.VERIF
                 pr = subprocess.Popen([sys.executable, '-m', 'hxmon.worker', check.ID, sp, op], env=e, cwd=env.VERIF,
                                       stdout=subprocess.DEVNULL, stderr=open(os.path.join(run_dir, 'err%d.txt' % i), 'w'))
@@ -372,6 +386,41 @@ def _jsonable(x):
         return show(x, 300)
 
 
+# Ambient state of the process that belongs to the host and that nothing evaluated may depend on.  Besides the shards a check plans
+# for itself (C13/C14/C06/C07 time zones, C05/C06 decimal contexts, C02 hash seeds), every check re-runs a few of its own shards - chosen
+# by the seed - under each of these, with its oracles unchanged.
+AMBIENTS = [('time-zone', {'tz': 'NZST-12NZDT,M9.5.0,M4.1.0/3'}),
+            ('hash-seed', {'hashseed': 987654321}),
+            ('warnings-as-errors', {'warnings': 'error'}),
+            ('int-text-limit-lifted', {'int_max_str_digits': 0}),
+            ('decimal-context', {'decimal_context': {'prec': 3, 'rounding': 'ROUND_UP', 'trap_inexact': True}})]
+
+
+def ambient_copies(check, specs, tier, seed):
+    out = []
+    skip = getattr(check, 'NO_AMBIENT', ())
+    try:
+        seed_n = int(seed)
+    except Exception:
+        seed_n = sum(map(ord, str(seed)))
+    for j, (name, amb) in enumerate(AMBIENTS):
+        cands = [sp for sp in specs if isinstance(sp, dict) and sp.get('campaign') not in skip and (sp.get('campaign'), name) not in skip
+                 and not any(k in sp for k in amb) and not sp.get('ambient')]
+        if not cands:
+            continue
+        # one shard of EVERY campaign (which one: by the seed), so that whatever a campaign reaches it reaches once under each ambient
+        by_campaign = collections.OrderedDict()
+        for sp in cands:
+            by_campaign.setdefault(sp.get('campaign'), []).append(sp)
+        for camp, lst in by_campaign.items():
+            for r in range(1 if tier == 'quick' else 2):
+                sp = dict(lst[(seed_n * 31 + j * 7 + r * 13 + sum(map(ord, check.ID))) % len(lst)])
+                sp.update(amb)
+                sp['ambient'] = name
+                out.append(sp)
+    return out
+
+
 def main_check(check_id, tier, seed, jobs=None, replay=None, inline=False, only=None):
     t0 = time.time()
     check = load_check(check_id)
@@ -386,6 +435,8 @@ def main_check(check_id, tier, seed, jobs=None, replay=None, inline=False, only=
             specs = [sp for sp in check.plan(tier, body.get('seed', seed)) if sp.get('campaign') == specs[0].get('campaign')]
     else:
         specs = check.plan(tier, seed)
+        if not inline:
+            specs = specs + ambient_copies(check, specs, tier, seed)
         if only:
             specs = [s for s in specs if s.get('campaign') in only]
         want_key = None
@@ -445,7 +496,9 @@ def main_check(check_id, tier, seed, jobs=None, replay=None, inline=False, only=
             'known_finding_keys_observed': known_keys,
             'foreign_alarms': dict(m['foreign']),
             'inconclusive_reasons': inconcl[:20],
-            'series': m['series'],
+            # (a series that is a whole table of outcomes - C02's per-order results - is summarised by size and digest)
+            'series': {k: ({'entries': len(v.get('outcomes', ())), 'sha1': hashlib.sha1(json.dumps(v, sort_keys=True, default=str).encode()).hexdigest()}
+                           if isinstance(v, dict) and 'outcomes' in v else v) for k, v in m['series'].items()},
         }
         cover['code_reached'] = code_reached(m['reach'])
         cover.update(check.extra(m) or {})
